@@ -523,6 +523,29 @@ def confirm(binary, v, idx):
             v['replay'] = save_replay(PROP, '%s-%d' % (v['role'], idx), files, "'**'",
                                       'expected two keep-sorted diagnostics (outer and inner block fail on the same line); ' + v['summary'], v)
         return v
+    if 'plan' in v and v.get('nasync', 0) >= 2:
+        # two ASYNC validators reporting on the same file: a check-lua and a check-ai block (loopback endpoint
+        # that rejects; once answering at once, once slowly, so that either validator finishes last)
+        from . import c19
+        files = {'f0.py': b'# <block name="l" check-lua="say.lua">\na\n# </block>\n# <block name="i" check-ai="must be empty">\na\n# </block>\n'
+                          b'# <block name="s" keep-sorted>\nb\na\n# </block>\n',
+                 'say.lua': b'function validate(ctx, content)\n  return "reported"\nend\n'}
+        seen = []
+        bad = False
+        for slow in (0.0, 0.8):
+            with c19.FakeEndpoint([], default=('text', 'no'), slow_ok=slow) as ep:
+                r = run_scan(binary, files, ['**/*.py'], env_extra={'BLOCKWATCH_AI_API_URL': 'http://127.0.0.1:%d/v1' % ep.port,
+                                                                  'BLOCKWATCH_AI_API_KEY': 'k', 'BLOCKWATCH_LUA_MODE': 'safe'})
+            codes = sorted(d.get('code') for d in (r['diags'] or {}).get('f0.py', []))
+            seen.append(dict(slow=slow, code=r['code'], codes=codes))
+            if codes != ['check-ai', 'check-lua', 'keep-sorted']:
+                bad = True
+        v['observed'] = seen
+        if bad:
+            v['confirmed'] = True
+            v['replay'] = save_replay(PROP, '%s-%d' % (v['role'], idx), files, "'**/*.py'  (BLOCKWATCH_AI_API_URL -> tools/fake_ai_endpoint.py)",
+                                      'expected check-ai, check-lua and keep-sorted diagnostics for f0.py whichever validator finishes last; ' + v['summary'], v)
+            return v
     if 'plan' in v:
         # two validators reporting on the same file: keep-sorted and keep-unique blocks in one file
         files = {'f0.py': b'# <block name="a" keep-sorted>\nb\na\n# </block>\n# <block name="b" keep-unique>\na\na\n# </block>\n'
